@@ -53,6 +53,7 @@ def _work(arg):
         res.append({"entry": key, "fn": p, "outcomes": kinds, "time": round(time.time() - t0, 3),
                     "obligations": [o.to_json() for o in r["obligations"]],
                     "assumed_at_entry": sc.entry_assumed.get(key, []),
+                    "unmodelled": sorted(sc.I.entry_unmodelled.get(key, ())),
                     "spec": r.get("spec", [])})
         # free memory
         del sc.results[key]
